@@ -218,7 +218,8 @@ def rule_m5(chk: Check, ix: Index, rule_id: str = "M5-indent-balance"):
     first = [pth for pth in ind if "is_indented = True" in effects(pth)]
     later = [pth for pth in ind if "is_indented = True" not in effects(pth)]
     ok_ind = bool(first) and bool(later) and all(pth[-1][1] == "continue" and "indent += 1" not in effects(pth) and
-                                                  (when(pth, "not is_indented", True) or when(pth, "is_indented", False)) for pth in first) and \
+                                                  (when(pth, "not is_indented", True) or when(pth, "is_indented", False) or
+                                                   when(pth, "idx == 1", True)) for pth in first) and \
         all("indent += 1" in effects(pth) for pth in later)
     chk.require(ok_ind, rule_id, "consume_with_macro_params:INDENT", f.where,
                 "the INDENT that opens the block must be swallowed once, nested INDENTs counted")
